@@ -762,6 +762,8 @@ def check_retrieval(out, c, tmp):
             hi = lo_wn + b * (hi_wn - lo_wn)
             if 'wavelength' in kind:
                 lo, hi = 10000.0 / hi, 10000.0 / lo
+            if kind == 'wavelength_res' and math.log(hi / lo) < 4.0 / c['bin_res']:
+                kind = 'wavelength_grid'            # a resolution grid needs room for a few bins
             if kind == 'wavelength_res':
                 lines.append('%s = %s, %s, %s' % (kind, num(lo), num(hi), num(c['bin_res'])))
             else:
@@ -813,7 +815,10 @@ def check_retrieval(out, c, tmp):
     with np.errstate(all='ignore'):
         cut(out, 'library-build', m0.build)
     def _usable(nm):
-        v0 = m0.fittingParameters[nm][2]()
+        t_ = m0.fittingParameters[nm]
+        v0 = t_[2]()
+        if t_[4] == 'log' and min(t_[6]) <= 0:
+            return False            # e.g. the Lee haze parameters declare log mode with bounds [-1, 1]: no default prior exists
         return isinstance(v0, (float, int, np.floating)) and math.isfinite(v0) and v0 > 0
     # parameters that currently hold a positive number (an unset cloud bound is None / -1: fitting it in log space
     # or scaling its value by a factor means nothing)
@@ -821,8 +826,8 @@ def check_retrieval(out, c, tmp):
     fitting, seen = [], set()
     for fp in c['fitting']:
         nm = 'no_such_parameter' if fp['name'] < 0 else avail[fp['name'] % len(avail)]
-        if nm in seen:
-            continue
+        if nm in seen or all(fp[k] is None for k in ('fit', 'bounds', 'mode', 'factor', 'prior')):
+            continue                # a parameter the file does not mention keeps its defaults
         seen.add(nm)
         fitting.append(dict(fp, name=nm))
     synth.reset_world()
@@ -877,7 +882,7 @@ def check_retrieval(out, c, tmp):
             grid = np.asarray(grid, dtype=float)
             if want_grid is not None:
                 if grid.shape != want_grid.shape or not close(grid, want_grid, rtol=1e-12):
-                    out.fail('binning-section@grid:%s' % c['bin_kind'], 'grid %s, documented %s' % (grid[:4], want_grid[:4]))
+                    out.fail('binning-section@grid:%s' % kind, 'grid %s, documented %s' % (grid[:4], want_grid[:4]))
             else:
                 wl = np.sort(10000.0 / grid)
                 lo_, hi_ = 10000.0 / (lo_wn + c['bin_span'][1] * (hi_wn - lo_wn)), 10000.0 / (lo_wn + c['bin_span'][0] * (hi_wn - lo_wn))
@@ -977,9 +982,8 @@ def check_retrieval(out, c, tmp):
             nm = fp['name']
             if nm not in known_names:
                 continue
-            # the documented order of application: fit, factor, bounds, mode, prior
-            if fp['fit'] is not None or True:
-                (o2.enable_fit if fp['fit'] else o2.disable_fit)(nm)
+            # a parameter named in [Fitting] is fitted only if its fit option says so
+            (o2.enable_fit if fp['fit'] else o2.disable_fit)(nm)
             if fp['factor'] is not None:
                 o2.set_factor_boundary(nm, list(fp['factor']))
             if fp['bounds'] is not None:
